@@ -198,4 +198,106 @@ theorem decInt_chars (i : Int) : ∀ c ∈ decInt i, c = 45 ∨ (48 ≤ c ∧ c 
 theorem no_dollar_decNat (n : Nat) : 36 ∉ decNat n := fun h => by have := decNat_chars n 36 h; omega
 theorem no_dollar_decInt (i : Int) : 36 ∉ decInt i := fun h => by have := decInt_chars i 36 h; omega
 
+/-! ### `String(f)` -/
+
+theorem halfStr_head (n : Nat) : ∃ c cs, halfStr n = c :: cs ∧ 48 ≤ c ∧ c < 58 := by
+  obtain ⟨c, cs, e, h⟩ := decNat_head (n / 2)
+  unfold halfStr
+  by_cases hp : n % 2 = 0
+  · simp only [hp, if_true]; exact ⟨c, cs, e, h⟩
+  · simp only [hp, if_false]; exact ⟨c, cs ++ [46, 53], by rw [e]; rfl, h⟩
+
+theorem halfStr_chars (n : Nat) : ∀ c ∈ halfStr n, c = 46 ∨ (48 ≤ c ∧ c < 58) := by
+  intro c hc
+  unfold halfStr at hc
+  by_cases hp : n % 2 = 0 <;> simp only [hp, if_true, if_false] at hc
+  · exact Or.inr (decNat_chars _ c hc)
+  · rcases List.mem_append.mp hc with hc | hc
+    · exact Or.inr (decNat_chars _ c hc)
+    · simp at hc; omega
+
+theorem halfStr_injective (a b : Nat) (h : halfStr a = halfStr b) : a = b := by
+  unfold halfStr at h
+  by_cases ha : a % 2 = 0 <;> by_cases hb : b % 2 = 0 <;> simp only [ha, hb, if_true, if_false] at h
+  · have := decNat_injective _ _ h; omega
+  · have m : 46 ∈ decNat (a / 2) := by rw [h]; simp
+    have := decNat_chars _ 46 m; omega
+  · have m : 46 ∈ decNat (b / 2) := by rw [← h]; simp
+    have := decNat_chars _ 46 m; omega
+  · have := decNat_injective _ _ (List.append_cancel_right h); omega
+
+theorem halfStr_zero : halfStr 0 = [48] := by
+  simp [halfStr, decNat, digits]
+
+theorem numStr_chars (f : Flt) (hf : f ≠ .nan) : 36 ∉ numStr f := by
+  intro h
+  cases f with
+  | nan => exact hf rfl
+  | inf n => cases n <;> simp [numStr, sInfinity] at h
+  | zero n => simp [numStr] at h
+  | fin t =>
+    unfold numStr at h
+    by_cases ht : t < 0 <;> simp only [ht, if_true, if_false] at h
+    · rcases List.mem_cons.mp h with h | h
+      · omega
+      · have := halfStr_chars _ 36 h; omega
+    · have := halfStr_chars _ 36 h; omega
+
+/-- `String` is injective on the modelled non-NaN floats, except that `String(-0) = String(+0)` — exactly Go's `==` -/
+theorem numStr_injective (f g : Flt) (hf : f ≠ .nan) (hg : g ≠ .nan) (wf : fwt f = true) (wg : fwt g = true) :
+    numStr f = numStr g ↔ fltEq f g = true := by
+  cases f with
+  | nan => exact absurd rfl hf
+  | inf a =>
+    cases g with
+    | nan => exact absurd rfl hg
+    | inf b => cases a <;> cases b <;> simp [numStr, fltEq, sInfinity]
+    | zero b => cases a <;> simp [numStr, fltEq, sInfinity]
+    | fin t =>
+      obtain ⟨c, cs, e, h1, h2⟩ := halfStr_head t.natAbs
+      cases a <;> by_cases ht : t < 0 <;> simp [numStr, fltEq, sInfinity, ht, e] <;> omega
+  | zero a =>
+    cases g with
+    | nan => exact absurd rfl hg
+    | inf b => cases b <;> simp [numStr, fltEq, sInfinity]
+    | zero b => simp [numStr, fltEq]
+    | fin t =>
+      have hz : t.natAbs ≠ 0 := by simp [fwt] at wg; omega
+      by_cases ht : t < 0
+      · simp [numStr, fltEq, ht]
+      · simp only [numStr, fltEq, ht, if_false]
+        constructor
+        · intro h; rw [← halfStr_zero] at h; exact absurd (halfStr_injective _ _ h).symm hz
+        · intro h; cases h
+  | fin s =>
+    cases g with
+    | nan => exact absurd rfl hg
+    | inf b =>
+      obtain ⟨c, cs, e, h1, h2⟩ := halfStr_head s.natAbs
+      cases b <;> by_cases hs : s < 0 <;> simp [numStr, fltEq, sInfinity, hs, e] <;> omega
+    | zero b =>
+      have hz : s.natAbs ≠ 0 := by simp [fwt] at wf; omega
+      by_cases hs : s < 0
+      · simp [numStr, fltEq, hs]
+      · simp only [numStr, fltEq, hs, if_false]
+        constructor
+        · intro h; rw [← halfStr_zero] at h; exact absurd (halfStr_injective _ _ h) hz
+        · intro h; cases h
+    | fin t =>
+      obtain ⟨c, cs, e, h1, h2⟩ := halfStr_head s.natAbs
+      obtain ⟨c', cs', e', h1', h2'⟩ := halfStr_head t.natAbs
+      by_cases hs : s < 0 <;> by_cases ht : t < 0 <;> simp only [numStr, fltEq, hs, ht, if_true, if_false, beq_iff_eq]
+      · constructor
+        · intro h; have := halfStr_injective _ _ (List.cons.inj h).2; omega
+        · intro h; rw [h]
+      · constructor
+        · intro h; rw [e'] at h; have := (List.cons.inj h).1; omega
+        · intro h; omega
+      · constructor
+        · intro h; rw [e] at h; have := (List.cons.inj h).1; omega
+        · intro h; omega
+      · constructor
+        · intro h; have := halfStr_injective _ _ h; omega
+        · intro h; rw [h]
+
 end GV.Proofs.MapKeyStr
